@@ -240,7 +240,7 @@ Section Proofs.
     nth_error (legs dir t) k = Some (l, v) -> nth_error (locations_of collar (legs dir t)) k = Some p ->
     desurvey_on dir collar t d = Some (vadd p (vscale (d - tk)%Q v)).
   Proof.
-    intros Hs Hk Hk1 Hlt Hle Hleg Hloc. unfold desurvey_on.
+    intros Hs Hk Hk1 Hlt Hle Hleg Hloc. unfold desurvey_on, desurvey_with.
     rewrite (count_lt_index (depths_of t) d k tk Hs Hk Hlt)
       by (intros t' Ht'; rewrite Hk1 in Ht'; inversion Ht'; subst; exact Hle).
     simpl Nat.pred.
@@ -256,7 +256,7 @@ Section Proofs.
     nth_error (legs dir t) n = Some (l, v) -> nth_error (locations_of collar (legs dir t)) (S n) = Some p ->
     desurvey_on dir collar t d = Some (vadd p (vscale (d - tn)%Q v)).
   Proof.
-    intros Hs Hlen Hk Hlt Hleg Hloc. unfold desurvey_on.
+    intros Hs Hlen Hk Hlt Hleg Hloc. unfold desurvey_on, desurvey_with.
     rewrite (count_lt_index (depths_of t) d (S n) tn Hs Hk Hlt).
     - simpl Nat.pred. rewrite legs_length, Hlen.
       replace (Nat.min (S n) (S (S n) - 1 - 1)) with n by lia.
@@ -311,7 +311,7 @@ Section Proofs.
     assert (Hck : count_lt (depths_of t) tk <= k).
     { destruct (le_lt_dec (count_lt (depths_of t) tk) k) as [H|H]; [exact H|].
       exfalso. exact (Qlt_irrefl tk (C1 k tk H Hk)). }
-    unfold desurvey_on. destruct (count_lt (depths_of t) tk) as [|j] eqn:Ec; simpl Nat.pred.
+    unfold desurvey_on, desurvey_with. destruct (count_lt (depths_of t) tk) as [|j] eqn:Ec; simpl Nat.pred.
     - (* no station before: we are at the first depth *)
       assert (H0len : 0 < length (depths_of t)) by (rewrite depths_length; lia).
       destruct (nth_error (depths_of t) 0) as [t0|] eqn:E0; [|apply nth_error_None in E0; lia].
@@ -378,7 +378,7 @@ Section Proofs.
 
   Lemma desurvey_on_total collar (t : list station) d : 2 <= length t -> exists p, desurvey_on dir collar t d = Some p.
   Proof.
-    intros Hlen. unfold desurvey_on.
+    intros Hlen. unfold desurvey_on, desurvey_with.
     pose proof (count_lt_le_length (depths_of t) d) as Hc. rewrite depths_length in Hc.
     set (il := Nat.pred (count_lt (depths_of t) d)).
     assert (Hil : il < length t) by (unfold il; lia).
